@@ -93,8 +93,10 @@ def parse_out(path):
     return res
 
 
-def replay_case(binary, case, hang=None):
+def replay_case(binary, case, hang=None, tier=None):
     cmd = [binary, "--replay", case]
+    if tier:
+        cmd += ["--tier", tier]
     if hang:
         cmd += ["--hang", str(hang)]
     r = subprocess.run(cmd, cwd=ROOT, stdout=subprocess.PIPE, stderr=subprocess.PIPE, text=True, errors="replace")
@@ -193,7 +195,7 @@ def cmd_run(args):
             # is reported only if it can be reproduced at least twice within a few re-runs
             hits = 0
             for _ in range(8):
-                rc, sigs, lines, err = replay_case(binary, case)
+                rc, sigs, lines, err = replay_case(binary, case, tier=tier)
                 if sig in sigs:
                     hits += 1
                 if hits >= 2:
@@ -203,7 +205,7 @@ def cmd_run(args):
                 ok = False
         else:
             for _ in range(2):
-                rc, sigs, lines, err = replay_case(binary, case)
+                rc, sigs, lines, err = replay_case(binary, case, tier=tier)
                 if rc == 2:
                     harness_errors.append("replay of %s (%s) ended with a harness error: %s" % (case, fl, err[-800:]))
                     ok = False
@@ -280,7 +282,7 @@ def cmd_replay(args):
     binary = build(repo, tag, rp["flavour"], rp["bin"])
     if binary is None:
         return 2
-    rc, sigs, lines, err = replay_case(binary, rp["case"])
+    rc, sigs, lines, err = replay_case(binary, rp["case"], tier=rp.get("tier"))
     print("\n".join(lines))
     if err.strip():
         print(err[-3000:])
